@@ -405,30 +405,6 @@ theorem rat_div_nonneg (a b : Rat) (ha : 0 ≤ a) (hb : 0 < b) : 0 ≤ a / b := 
     have ha0 : a = 0 := by grind
     rw [ha0, Rat.div_def, Rat.zero_mul]; exact Rat.le_refl
 
-/-- the hypothesis of `fixed_nonneg_partial`, following the first-row loop: each time a cell with a
-    specified width is reached, that width minus the inner spacing covers the known widths it spans -/
-def FirstRowFits (sx : Rat) : Nat → List (Nat × Option Rat) → List (Option Rat) → Prop
-  | _, [], _ => True
-  | i, (cs, none) :: r, cw => FirstRowFits sx (i + cs) r cw
-  | i, (cs, some bw) :: r, cw =>
-    let seg := (cw.drop i).take cs
-    let width := bw - sx * ((cs : Rat) - 1) - knownSum seg
-    0 ≤ width ∧
-    FirstRowFits sx (i + cs) r
-      (if unknowns seg ≠ 0 then cw.take i ++ fillNone (width / (unknowns seg : Rat)) seg ++ cw.drop (i + cs) else cw)
-
-instance decFirstRowFits (sx : Rat) : (i : Nat) → (f : List (Nat × Option Rat)) → (cw : List (Option Rat)) →
-    Decidable (FirstRowFits sx i f cw)
-  | _, [], _ => isTrue trivial
-  | i, (cs, none) :: r, cw => decFirstRowFits sx (i + cs) r cw
-  | i, (cs, some bw) :: r, cw => by
-    unfold FirstRowFits
-    have := decFirstRowFits sx (i + cs) r
-      (if unknowns ((cw.drop i).take cs) ≠ 0 then
-        cw.take i ++ fillNone ((bw - sx * ((cs : Rat) - 1) - knownSum ((cw.drop i).take cs)) / (unknowns ((cw.drop i).take cs) : Rat)) ((cw.drop i).take cs) ++ cw.drop (i + cs)
-       else cw)
-    exact inferInstanceAs (Decidable (_ ∧ _))
-
 def KnownNonneg (cw : List (Option Rat)) : Prop := ∀ w, some w ∈ cw → 0 ≤ w
 
 theorem fillNone_nonneg (v : Rat) (hv : 0 ≤ v) (l : List (Option Rat)) (h : KnownNonneg l) :
@@ -469,36 +445,34 @@ theorem resolveWith_nonneg (v : Rat) (hv : 0 ≤ v) (l : List (Option Rat)) (h :
       · exact h _ (by simp)
       · exact ih hr w hw
 
+theorem maxR_zero_nonneg (v : Rat) : 0 ≤ maxR 0 v := by
+  unfold maxR; split
+  · rename_i h; exact Rat.le_of_lt h
+  · exact Rat.le_refl
+
 theorem firstRowPass_nonneg (sx : Rat) (first : List (Nat × Option Rat)) :
-    ∀ (i : Nat) (cw : List (Option Rat)), KnownNonneg cw → FirstRowFits sx i first cw →
-      KnownNonneg (firstRowPass sx i first cw) := by
+    ∀ (i : Nat) (cw : List (Option Rat)), KnownNonneg cw → KnownNonneg (firstRowPass sx i first cw) := by
   induction first with
-  | nil => intro i cw h _; simpa [firstRowPass] using h
+  | nil => intro i cw h; simpa [firstRowPass] using h
   | cons a r ih =>
-    intro i cw h hf
+    intro i cw h
     obtain ⟨cs, ow⟩ := a
     cases ow with
-    | none => simp only [firstRowPass]; exact ih _ _ h (by simpa [FirstRowFits] using hf)
+    | none => simp only [firstRowPass]; exact ih _ _ h
     | some bw =>
       simp only [firstRowPass]
-      simp only [FirstRowFits] at hf
-      refine ih _ _ ?_ hf.2
+      refine ih _ _ ?_
       split
-      · rename_i hu
-        have hpos : (0 : Rat) < (unknowns ((cw.drop i).take cs) : Rat) := by
-          exact_mod_cast Nat.pos_of_ne_zero hu
-        have hv : 0 ≤ (bw - sx * ((cs : Rat) - 1) - knownSum ((cw.drop i).take cs)) / (unknowns ((cw.drop i).take cs) : Rat) :=
-          rat_div_nonneg _ _ hf.1 hpos
-        intro w hw
+      · intro w hw
         simp only [List.mem_append] at hw
         rcases hw with (hw | hw) | hw
         · exact h w (List.mem_of_mem_take hw)
-        · exact fillNone_nonneg _ hv _ (fun w' hw' => h w' (List.mem_of_mem_drop (List.mem_of_mem_take hw'))) w hw
+        · exact fillNone_nonneg _ (maxR_zero_nonneg _) _
+            (fun w' hw' => h w' (List.mem_of_mem_drop (List.mem_of_mem_take hw'))) w hw
         · exact h w (List.mem_of_mem_drop hw)
       · exact h
 
-theorem fixedLayout_nonneg (i : FixedIn) (hcols : ∀ w, some w ∈ i.cols → 0 ≤ w)
-    (hfit : FirstRowFits i.sx 0 i.first (i.cols ++ List.replicate (i.numColumns - i.cols.length) none)) :
+theorem fixedLayout_nonneg (i : FixedIn) (hcols : ∀ w, some w ∈ i.cols → 0 ≤ w) :
     ∀ w ∈ (fixedLayout i).2, 0 ≤ w := by
   have h0 : KnownNonneg (i.cols ++ List.replicate (i.numColumns - i.cols.length) none) := by
     intro w hw
@@ -506,7 +480,7 @@ theorem fixedLayout_nonneg (i : FixedIn) (hcols : ∀ w, some w ∈ i.cols → 0
     rcases hw with hw | ⟨_, hw⟩
     · exact hcols w hw
     · cases hw
-  have hk : KnownNonneg (fixedKnown i) := firstRowPass_nonneg _ _ _ _ h0 hfit
+  have hk : KnownNonneg (fixedKnown i) := firstRowPass_nonneg _ _ _ _ h0
   have hd : ∀ w ∈ fixedDistributed i, 0 ≤ w := by
     unfold fixedDistributed
     simp only
@@ -533,5 +507,278 @@ theorem fixedLayout_nonneg (i : FixedIn) (hcols : ∀ w, some w ∈ i.cols → 0
         rat_div_nonneg _ _ (by grind) hpos
       grind
     · exact hd
+
+/-! ## rows -/
+
+/-- the row tracks a group's row pass produces -/
+def rowTracks (o : ROut) : List Track := o.rows.map fun r => ⟨r.1, r.2⟩
+
+/-- "the row part of `g` (one row group starting at `y`) was computed by the model": the group box and
+    its row tracks come from `rowPass`, every cell's first row / rows covered / top / border height are
+    those of a completed cell of the pass. -/
+def ModelRows (g : Grid) (y : Rat) (rows : List RRow) : Prop :=
+  g.groups = [⟨y, if (rowPass g.sy y rows).rows.isEmpty then 0 else (rowPass g.sy y rows).endY - y - g.sy,
+               rowTracks (rowPass g.sy y rows)⟩] ∧
+  ∀ c ∈ g.cells, ∃ d ∈ (rowPass g.sy y rows).cells, c.gy = d.row ∧ c.rs = d.span ∧ c.y = d.y ∧ c.h = d.bh
+
+/-- rows start at `y`, each next row starts after the previous one plus the spacing, `e` is the
+    position after the last row and its spacing -/
+def Chained (sy : Rat) : Rat → List (Rat × Rat) → Rat → Prop
+  | y, [], e => e = y
+  | y, t :: r, e => t.1 = y ∧ Chained sy (y + t.2 + sy) r e
+
+theorem rowLoop_chained (sy : Rat) (rows : List RRow) : ∀ (k : Nat) (y : Rat) (pend : List Pending),
+    Chained sy y (rowLoop sy k y pend rows).rows (rowLoop sy k y pend rows).endY := by
+  induction rows with
+  | nil => intro k y pend; simp [rowLoop, Chained]
+  | cons row rest ih =>
+    intro k y pend
+    simp only [rowLoop, Chained]
+    exact ⟨trivial, ih _ _ _⟩
+
+theorem maxR_ge_right (a b : Rat) : b ≤ maxR a b := by
+  unfold maxR; split
+  · exact Rat.le_refl
+  · rename_i h; exact Rat.not_lt.mp h
+
+theorem maxR_ge_left (a b : Rat) : a ≤ maxR a b := by
+  unfold maxR; split
+  · rename_i h; exact Rat.le_of_lt h
+  · exact Rat.le_refl
+
+theorem maxHeight_ge (l : List Pending) : ∀ init : Rat, init ≤ maxHeight init l := by
+  induction l with
+  | nil => intro init; exact Rat.le_refl
+  | cons p r ih => intro init; exact Rat.le_trans (maxR_ge_left _ _) (ih _)
+
+theorem rowHeight_nonneg (y : Rat) (h : Option Rat) (ending : List Pending) : 0 ≤ rowHeight y h ending := by
+  unfold rowHeight
+  split
+  · exact Rat.le_refl
+  · cases h with
+    | none => exact maxR_ge_right _ _
+    | some v => exact Rat.le_trans (maxHeight_ge ending 0) (maxR_ge_right _ _)
+
+theorem rowLoop_heights_nonneg (sy : Rat) (rows : List RRow) : ∀ (k : Nat) (y : Rat) (pend : List Pending),
+    ∀ t ∈ (rowLoop sy k y pend rows).rows, 0 ≤ t.2 := by
+  induction rows with
+  | nil => intro k y pend t ht; simp [rowLoop] at ht
+  | cons row rest ih =>
+    intro k y pend t ht
+    simp only [rowLoop, List.mem_cons] at ht
+    rcases ht with rfl | ht
+    · exact rowHeight_nonneg _ _ _
+    · exact ih _ _ _ t ht
+
+/-- the invariant of the row loop: every completed cell starts at the top of its first row and ends
+    at the bottom of its last row -/
+theorem rowLoop_cells (sy : Rat) (rows : List RRow) : ∀ (k : Nat) (y : Rat) (pend : List Pending),
+    ∀ d ∈ (rowLoop sy k y pend rows).cells,
+      (∃ p ∈ pend, d.row = p.row ∧ d.span = p.span ∧ d.y = p.y ∧
+        ∃ t, (rowLoop sy k y pend rows).rows[p.left]? = some t ∧ d.y + d.bh = t.1 + t.2) ∨
+      (k ≤ d.row ∧ 1 ≤ d.span ∧ ∃ a b, (rowLoop sy k y pend rows).rows[d.row - k]? = some a ∧ a.1 = d.y ∧
+        (rowLoop sy k y pend rows).rows[d.row - k + (d.span - 1)]? = some b ∧ d.y + d.bh = b.1 + b.2) := by
+  induction rows with
+  | nil => intro k y pend d hd; simp [rowLoop] at hd
+  | cons row rest ih =>
+    intro k y pend d hd
+    simp only [rowLoop] at hd ⊢
+    generalize rowHeight y row.height _ = height at hd ⊢
+    have IH := ih (k + 1) (y + height + sy) (List.map age (List.filter (fun x => decide (x.left ≠ 0)) (pend ++ arrivals k y row)))
+    generalize rowLoop sy (k + 1) (y + height + sy) _ rest = o' at hd IH ⊢
+    simp only [List.mem_append, List.mem_map, List.mem_filter] at hd
+    rcases hd with ⟨p, ⟨hp, hl⟩, rfl⟩ | hd
+    · -- a cell ending in this row
+      have hl0 : p.left = 0 := by simpa using hl
+      have hbot : (finish (y + height) p).y + (finish (y + height) p).bh = y + height := by
+        simp only [finish]; grind
+      rcases hp with hp | hp
+      · left
+        exact ⟨p, hp, rfl, rfl, rfl, (y, height), by rw [hl0]; rfl, hbot⟩
+      · right
+        simp only [arrivals, List.mem_map] at hp
+        obtain ⟨c, hc, rfl⟩ := hp
+        simp only at hl0
+        refine ⟨Nat.le_refl _, by simp [finish], (y, height), (y, height), by simp [finish], rfl, ?_, hbot⟩
+        simp [finish, hl0]
+    · -- a cell completed later
+      rcases IH d hd with ⟨p', hp', h1, h2, h3, t, ht, hb⟩ | ⟨hk, hs, a, b, ha, hay, hb, hbb⟩
+      · simp only [List.mem_map, List.mem_filter, List.mem_append] at hp'
+        obtain ⟨p, ⟨hp, hl⟩, rfl⟩ := hp'
+        have hl0 : p.left ≠ 0 := by simpa using hl
+        have hidx : p.left = p.left - 1 + 1 := by omega
+        simp only [age] at h1 h2 h3 ht
+        rcases hp with hp | hp
+        · left
+          refine ⟨p, hp, h1, h2, h3, t, ?_, hb⟩
+          rw [hidx, List.getElem?_cons_succ]; exact ht
+        · right
+          simp only [arrivals, List.mem_map] at hp
+          obtain ⟨c, hc, rfl⟩ := hp
+          simp only at h1 h2 h3 ht hl0
+          refine ⟨by omega, by omega, (y, height), t, ?_, h3.symm, ?_, hb⟩
+          · rw [h1]; simp
+          · rw [h1, h2]
+            have : k - k + (c.rs - 1 + 1 - 1) = c.rs - 1 - 1 + 1 := by omega
+            rw [this, List.getElem?_cons_succ]; exact ht
+      · right
+        have e1 : d.row - k = d.row - (k + 1) + 1 := by omega
+        have e2 : d.row - k + (d.span - 1) = d.row - (k + 1) + (d.span - 1) + 1 := by omega
+        refine ⟨by omega, hs, a, b, ?_, hay, ?_, hbb⟩
+        · rw [e1, List.getElem?_cons_succ]; exact ha
+        · rw [e2, List.getElem?_cons_succ]; exact hb
+
+/-- closed form of a chained list of rows -/
+theorem chained_get (sy : Rat) (rows : List (Rat × Rat)) : ∀ (y e : Rat), Chained sy y rows e →
+    ∀ (k : Nat) (t : Rat × Rat), rows[k]? = some t →
+      t.1 = y + pre (rows.map (·.2)) k + sy * (k : Rat) := by
+  induction rows with
+  | nil => intro y e _ k t ht; simp at ht
+  | cons r rest ih =>
+    intro y e hc k t ht
+    simp only [Chained] at hc
+    cases k with
+    | zero =>
+      simp only [List.getElem?_cons_zero, Option.some.injEq] at ht
+      subst ht
+      have z : ((0 : Nat) : Rat) = 0 := by exact_mod_cast rfl
+      rw [pre_zero, z, hc.1]; grind
+    | succ k =>
+      simp only [List.getElem?_cons_succ] at ht
+      have := ih _ _ hc.2 k t ht
+      rw [this]
+      simp only [List.map_cons, pre, List.take_succ_cons, sumR_cons]
+      rw [natCast_add]
+      have o : ((1 : Nat) : Rat) = 1 := by exact_mod_cast rfl
+      rw [o]; grind
+
+theorem chained_last (sy : Rat) (rows : List (Rat × Rat)) : ∀ (y e : Rat), Chained sy y rows e →
+    ∀ t, rows.getLast? = some t → e = t.1 + t.2 + sy := by
+  induction rows with
+  | nil => intro y e _ t ht; simp at ht
+  | cons r rest ih =>
+    intro y e hc t ht
+    simp only [Chained] at hc
+    cases rest with
+    | nil =>
+      simp only [List.getLast?_singleton, Option.some.injEq] at ht
+      subst ht
+      simp only [Chained] at hc
+      rw [hc.2, hc.1]
+    | cons r' rest' =>
+      rw [List.getLast?_cons_cons] at ht
+      exact ih _ _ hc.2 t ht
+
+theorem chained_spaced (sy : Rat) (rows : List (Rat × Rat)) : ∀ (y e : Rat), Chained sy y rows e →
+    Spaced 0 sy (rows.map fun r => ⟨r.1, r.2⟩) := by
+  induction rows with
+  | nil => intro y e _; simp [Spaced]
+  | cons r rest ih =>
+    intro y e hc
+    simp only [Chained] at hc
+    cases rest with
+    | nil => simp [Spaced]
+    | cons r' rest' =>
+      have := ih _ _ hc.2
+      simp only [Chained] at hc
+      simp only [List.map_cons, Spaced] at this ⊢
+      refine ⟨⟨?_, ?_⟩, this⟩ <;> (rw [hc.2.1, hc.1]; grind)
+
+theorem rowTracks_get (o : ROut) (i : Nat) (t : Rat × Rat) (h : o.rows[i]? = some t) :
+    (rowTracks o)[i]? = some ⟨t.1, t.2⟩ := by
+  simp [rowTracks, List.getElem?_map, h]
+
+theorem rowTracks_sizes (o : ROut) : (rowTracks o).map (·.size) = o.rows.map (·.2) := by
+  simp [rowTracks, List.map_map, Function.comp_def]
+
+theorem rows_consistent_of (g : Grid) (y : Rat) (o : ROut)
+    (hg : g.groups = [⟨y, if o.rows.isEmpty then 0 else o.endY - y - g.sy, rowTracks o⟩])
+    (hc : ∀ c ∈ g.cells, ∃ d ∈ o.cells, c.gy = d.row ∧ c.rs = d.span ∧ c.y = d.y ∧ c.h = d.bh)
+    (hch : Chained g.sy y o.rows o.endY)
+    (hcells : ∀ d ∈ o.cells, 1 ≤ d.span ∧ ∃ a b, o.rows[d.row]? = some a ∧ a.1 = d.y ∧
+      o.rows[d.row + (d.span - 1)]? = some b ∧ d.y + d.bh = b.1 + b.2)
+    (hnn : ∀ t ∈ o.rows, 0 ≤ t.2) :
+    SharedRowEdges 0 g ∧ (∀ c ∈ g.cells, CellOnRows 0 g c) ∧ (∀ gr ∈ g.groups, GroupRows 0 g.sy gr) ∧
+    (∀ gr ∈ g.groups, ∀ t ∈ gr.rows, 0 ≤ t.size) := by
+  have hrows : g.rows = rowTracks o := by simp [Grid.rows, hg]
+  -- every cell: top of first row, bottom of last row
+  have key : ∀ c ∈ g.cells, 1 ≤ c.rs ∧ ∃ a b, o.rows[c.gy]? = some a ∧ a.1 = c.y ∧
+      o.rows[c.gy + c.rs - 1]? = some b ∧ c.y + c.h = b.1 + b.2 := by
+    intro c hcm
+    obtain ⟨d, hd, h1, h2, h3, h4⟩ := hc c hcm
+    obtain ⟨hs, a, b, ha, hay, hb, hbb⟩ := hcells d hd
+    have e : c.gy + c.rs - 1 = d.row + (d.span - 1) := by omega
+    exact ⟨by omega, a, b, by rw [h1]; exact ha, by rw [h3]; exact hay, by rw [e]; exact hb, by rw [h3, h4]; exact hbb⟩
+  refine ⟨?_, ?_, ?_, ?_⟩
+  · intro c hcm d hdm
+    obtain ⟨c1, ca, cb, hca, hcay, hcb, hcbb⟩ := key c hcm
+    obtain ⟨d1, da, db, hda, hday, hdb, hdbb⟩ := key d hdm
+    refine ⟨fun h => ?_, fun h => ?_⟩
+    · rw [h] at hca; rw [hca] at hda; cases hda
+      rw [← hcay, ← hday]; exact ⟨by grind, by grind⟩
+    · have : c.gy + c.rs - 1 = d.gy + d.rs - 1 := by omega
+      rw [this] at hcb; rw [hcb] at hdb; cases hdb
+      rw [hcbb, hdbb]; exact ⟨by grind, by grind⟩
+  · intro c hcm
+    obtain ⟨c1, a, b, ha, hay, hb, hbb⟩ := key c hcm
+    unfold CellOnRows
+    rw [hrows, rowTracks_get o _ _ ha, rowTracks_get o _ _ hb]
+    simp only
+    have hA := chained_get g.sy o.rows y o.endY hch _ a ha
+    have hB := chained_get g.sy o.rows y o.endY hch _ b hb
+    have hbh : (o.rows.map (·.2))[c.gy + c.rs - 1]? = some b.2 := by simp [List.getElem?_map, hb]
+    have hps := pre_succ (o.rows.map (·.2)) (c.gy + c.rs - 1) b.2 hbh
+    have e : c.gy + c.rs - 1 + 1 = c.gy + c.rs := by omega
+    rw [e] at hps
+    have hpa := pre_add (o.rows.map (·.2)) c.gy c.rs
+    have hsz : sizes (((rowTracks o).drop c.gy).take c.rs) = sumR (((o.rows.map (·.2)).drop c.gy).take c.rs) := by
+      rw [sizes_eq, List.map_take, List.map_drop, rowTracks_sizes]
+    have hcast : ((c.gy + c.rs - 1 : Nat) : Rat) = (c.gy : Rat) + (c.rs : Rat) - 1 := by
+      rw [natCast_sub_one _ (by omega), natCast_add]
+    refine ⟨c1, ⟨by grind, by grind⟩, ⟨by grind, by grind⟩, ?_⟩
+    rw [hsz]
+    rw [hcast] at hB
+    constructor <;> grind
+  · intro gr hgr
+    rw [hg] at hgr
+    simp only [List.mem_cons, List.not_mem_nil, or_false] at hgr
+    subst hgr
+    unfold GroupRows
+    simp only
+    cases hr : o.rows with
+    | nil => simp [rowTracks, hr]
+    | cons r0 rest =>
+      have hne : o.rows ≠ [] := by simp [hr]
+      have hsp := chained_spaced g.sy o.rows y o.endY hch
+      have hhead : (rowTracks o).head? = some ⟨r0.1, r0.2⟩ := by simp [rowTracks, hr]
+      obtain ⟨tl, htl⟩ : ∃ tl, o.rows.getLast? = some tl := by
+        cases h : o.rows.getLast? with
+        | none => simp [List.getLast?_eq_none_iff] at h; exact absurd h hne
+        | some tl => exact ⟨tl, rfl⟩
+      have hlast : (rowTracks o).getLast? = some ⟨tl.1, tl.2⟩ := by
+        simp [rowTracks, List.getLast?_map, htl]
+      have hend := chained_last g.sy o.rows y o.endY hch tl htl
+      have h0 : r0.1 = y := by rw [hr] at hch; exact hch.1
+      rw [hhead, hlast]
+      have hie : o.rows.isEmpty = false := by simp [hr]
+      simp only [hie, Bool.false_eq_true, if_false]
+      refine ⟨⟨by grind, by grind⟩, hsp, ⟨by grind, by grind⟩⟩
+  · intro gr hgr t ht
+    rw [hg] at hgr
+    simp only [List.mem_cons, List.not_mem_nil, or_false] at hgr
+    subst hgr
+    simp only [rowTracks, List.mem_map] at ht
+    obtain ⟨r, hr, rfl⟩ := ht
+    exact hnn r hr
+
+theorem rows_consistent_model (g : Grid) (y : Rat) (rows : List RRow) (hm : ModelRows g y rows) :
+    SharedRowEdges 0 g ∧ (∀ c ∈ g.cells, CellOnRows 0 g c) ∧ (∀ gr ∈ g.groups, GroupRows 0 g.sy gr) ∧
+    (∀ gr ∈ g.groups, ∀ t ∈ gr.rows, 0 ≤ t.size) := by
+  refine rows_consistent_of g y (rowPass g.sy y rows) hm.1 hm.2 (rowLoop_chained g.sy rows 0 y []) ?_
+    (rowLoop_heights_nonneg g.sy rows 0 y [])
+  intro d hd
+  rcases rowLoop_cells g.sy rows 0 y [] d hd with ⟨p, hp, _⟩ | ⟨_, hs, a, b, ha, hay, hb, hbb⟩
+  · simp at hp
+  · exact ⟨hs, a, b, by simpa [rowPass] using ha, hay, by simpa [rowPass] using hb, hbb⟩
 
 end WR.C13
